@@ -1276,6 +1276,71 @@ def check_c14(tier):
     return 1 if viol else 0
 
 
+# ----------------------------------------------------------------------------------------- E5 merge engine (C09)
+def check_c09(tier):
+    t0 = time.time()
+    build()
+    run = os.path.join(WORK, "E5-" + tier)
+    shutil.rmtree(run, ignore_errors=True)
+    shutil.copytree(os.path.join(ROOT, "spec", "merge"), run)
+    tool_errors = []
+    nfiles = 2 if tier == "quick" else 3
+    for mode in ("gen", "judge"):
+        open(os.path.join(run, "merge_%s.cfg" % mode), "w").write("SPECIFICATION Spec\nCHECK_DEADLOCK FALSE\nCONSTANTS\n  Mode = \"%s\"\n  NFiles = %d\n  Reorder = TRUE\n" % (mode, nfiles))
+    inp = os.path.join(run, "in.ndjson")
+    g = tlc_lines(run, "Merge.tla", "merge_gen.cfg", "I", inp, workers=8)
+    if g["rc"] != 0 or g["n"] == 0:
+        tool_errors.append("Merge gen rc=%s n=%s %s" % (g["rc"], g["n"], g["errors"][:2]))
+    out = os.path.join(run, "res.ndjson")
+    sh([VH, "merge", "--in", inp, "--out", out], timeout=3600)
+    j = run_tlc(run, "Merge.tla", "merge_judge.cfg", 1, 3600, env={"RESULTS": out}, tag="_judge", heap="12g")
+    if j["rc"] != 0:
+        tool_errors.append("Merge judge rc=%s %s" % (j["rc"], j["errors"][:2]))
+    verdicts = [json.loads(decode_tagged(l)[1][0]) for l in j["tagged"] if l.startswith('<<"V"')]
+    kf = [f for f in known_findings().get("findings", []) if f.get("engine") == "E5"]
+    viol = 0
+    known = {}
+    for v in verdicts:
+        # the duplicate-element finding: the record itself has a duplicated path, or (order independence) some record of the same split has
+        dupids = getattr(check_c09, "_dupids", None)
+        if dupids is None:
+            dupids = set(json.dumps(x["id"], sort_keys=True) for x in verdicts if x["dup"])
+            check_c09._dupids = dupids
+        hit = [f for f in kf if v["pred"] in f.get("preds", []) and (v["dup"] or (v["pred"] == "OrderIndependent" and json.dumps(v["id"], sort_keys=True) in dupids))]
+        if hit:
+            known[hit[0]["id"]] = hit[0]
+            continue
+        viol += 1
+        if viol <= 20:
+            dd = os.path.join(WORK, "replays")
+            os.makedirs(dd, exist_ok=True)
+            path = os.path.join(dd, "C09-%d.json" % viol)
+            json.dump(dict(v, property="C09", engine="E5"), open(path, "w"))
+            print("VIOLATION property=C09 replay=%s" % path)
+            log("   %s fails: split %s, load order %s, loads %s, duplicates %s" % (v["pred"], v["id"], v["order"], v["loads"], v["dup"]))
+    for fid, f in known.items():
+        print("KNOWN-FINDING: property=C09 %s" % f["what"])
+    nrec = sum(1 for _ in open(out))
+    samples = []
+    with open(inp) as f:
+        for i, l in enumerate(f):
+            if i in (0, 50):
+                c = json.loads(l)
+                samples.append({"split": c["id"], "view_of_file_1": c["views"][0][-260:]})
+    ev = {"property_id": "C09", "tier": tier, "seed": seed(), "level": "model_checking",
+          "coverage": {"states": max(1, g["distinct"]), "transitions": max(1, g["generated"]), "traces_validated_against_impl": nrec, "samples": samples or ["none"],
+                       "files": nfiles, "splits_x_sibling_orders": g["n"], "known_findings_hit": sorted(known.keys()), "exhaustive": True,
+                       "explanation": "TLC enumerates every split of the master model (2 packages, 4 elements, a nested package) over the files, with each file presenting its siblings in document or reversed order; the harness loads the views in every order; TLC judges Union, Attribution, FileContent and OrderIndependent on every merged model"},
+          "assumptions": ["one master shape (spec/merge/Merge.tla); BSW containers keyed by DEFINITION-REF and files of different versions are not in the enumerated family", "canonical element lists from harness/src/merge.rs"],
+          "wall_s": round(time.time() - t0, 2), "violations": viol}
+    os.makedirs(EVID, exist_ok=True)
+    json.dump(ev, open(os.path.join(EVID, "C09.json"), "w"), indent=1)
+    if tool_errors:
+        log("TOOL ERRORS: " + "; ".join(tool_errors[:5]))
+        return 1 if viol else 2
+    return 1 if viol else 0
+
+
 # ----------------------------------------------------------------------------------------- E8 number engine (C20, partial)
 def check_c20(tier):
     t0 = time.time()
@@ -1490,6 +1555,8 @@ def main(argv):
             return check_c17(tier)
         if prop == "C20":
             return check_c20(tier)
+        if prop == "C09":
+            return check_c09(tier)
         if prop == "C15":
             return check_c15(tier)
         if prop == "C16":
